@@ -55,6 +55,10 @@ def check_strings(case):
         want = [f[0] + f[1:][::-1] for f in full]
         if list(mir) != want:
             bad("mirror", f"to_list(qiskit_convention=True) = {list(mir)}, expected the mirror image {want}")
+        # the same calls with the flag given positionally, as the documented signature to_list(qiskit_convention=False) allows
+        mir_p, plain_p = st.to_list(True), st.to_list(False)
+        if list(mir_p) != want or list(plain_p) != full:
+            bad("positional-flag", f"to_list(True) = {list(mir_p)} / to_list(False) = {list(plain_p)}, expected {want} / {full}")
         st2 = L.Stabilizer(list(out))
         if not (st2 == st) or obj_data(st2) != obj_data(st):
             bad("object-roundtrip", "Stabilizer(to_list(s)) != s")
